@@ -34,9 +34,9 @@ func (c *VerifCache) DataForSearch(id uint64) ([2][]byte, [][2]int, uint64, uint
 }
 
 func (c *VerifCache) Contains(id uint64) bool { return c.cf.Contains(id) }
-func (c *VerifCache) StreamCount() uint64    { return c.cf.StreamCount() }
-func (c *VerifCache) Reset() error           { return c.cf.Reset() }
-func (c *VerifCache) Close() error           { return c.cf.Close() }
+func (c *VerifCache) StreamCount() uint64     { return c.cf.StreamCount() }
+func (c *VerifCache) Reset() error            { return c.cf.Reset() }
+func (c *VerifCache) Close() error            { return c.cf.Close() }
 
 func (c *VerifCache) Invalidate(ids []uint64) []uint {
 	bm := bitmask.LongBitmask{}
